@@ -15,6 +15,9 @@ PKG = "vcr/verifier"
 HARNESS = ["vcr/verifier/zz_verif_c01_test.go"]
 
 REQUIRED = ["check_order_irrelevant_for_accept", "valid_only_if", "key_is_from_the_issuers_document",
+            "vp_valid_only_if", "vp_check_order_irrelevant_for_accept", "empty_presentation_holder_is_not_checked",
+            "tamper_evident", "tamper_evident_jwt", "tamper_evident_vp", "undefined_member_unsigned",
+            "own_output_verifies_ld", "own_output_verifies_jwt", "own_presentation_verifies",
             "fact_verify_check_sequence", "fact_doVerifyVP_check_sequence", "fact_jsonldProof_check_sequence",
             "fact_jwtSignature_check_sequence", "fact_parseJWT_check_sequence", "fact_validator_selection",
             "fact_model_checks_are_the_source_checks", "fact_max_skew", "fact_supported_algs"]
